@@ -13,7 +13,7 @@
    Where(c, x, y)             c.rx.where(x, y)
    And(x, y) / Or(x, y)       x.rx.and_(y) / x.rx.or_(y)
    InL(x, y)                  x.rx.in_(y)
-   Pipe(x, y)                 x.rx.pipe(f, y)        with f(u, v) = 10 u + v
+   Pipe(x, y) / PipeKw(x, y)  x.rx.pipe(f, y) / x.rx.pipe(f, v=y)   with f(u, v) = 10 u + v
    Map(x)                     x.rx.map(g)            with g(u) = u + 1
    Count(x, y)                x.count(y)             (a method call through the expression)
    BindF(x, y)                param.rx(param.bind(f, x, y)) -- a bound function as root
@@ -44,6 +44,7 @@ And(x, y) == [k |-> "and", x |-> x, y |-> y]
 Or(x, y) == [k |-> "or", x |-> x, y |-> y]
 InL(x, y) == [k |-> "inl", x |-> x, y |-> y]
 Pipe(x, y) == [k |-> "pipe", x |-> x, y |-> y]
+PipeKw(x, y) == [k |-> "pipekw", x |-> x, y |-> y]     \* x.rx.pipe(f, v=y): the reactive argument passed by keyword
 Map(x) == [k |-> "map", x |-> x]
 Count(x, y) == [k |-> "count", x |-> x, y |-> y]
 BindF(x, y) == [k |-> "bindf", x |-> x, y |-> y]
@@ -94,7 +95,7 @@ Eval(e, env) ==
     [] e.k = "inl" -> LET x == Eval(e.x, env) y == Eval(e.y, env) IN
                       IF x.t = "e" THEN x ELSE IF y.t = "e" THEN y
                       ELSE IF y.t # "l" THEN Err("TypeError") ELSE BV(\E i \in 1..Len(y.items) : y.items[i] = Num(x))
-    [] e.k \in {"pipe", "bindf"} -> LET x == Eval(e.x, env) y == Eval(e.y, env) IN
+    [] e.k \in {"pipe", "pipekw", "bindf"} -> LET x == Eval(e.x, env) y == Eval(e.y, env) IN
                        IF x.t = "e" THEN x ELSE IF y.t = "e" THEN y ELSE IV(10 * Num(x) + Num(y))
     [] e.k = "map" -> LET x == Eval(e.x, env) IN
                       IF x.t = "e" THEN x ELSE LV([i \in 1..Len(x.items) |-> x.items[i] + 1])
@@ -110,7 +111,7 @@ Inputs(e) ==
     [] e.k = "where" -> Inputs(e.c) \cup Inputs(e.x) \cup Inputs(e.y)
     [] OTHER -> Inputs(e.x) \cup Inputs(e.y)
 \* reactive sub-expressions the harness keeps handles to (the expression itself and its operands)
-Subs(e) == {e} \cup (IF e.k \in {"bin", "idx", "and", "or", "inl", "pipe", "count", "bindf"} THEN {x \in {e.x, e.y} : x.k \notin {"in", "c"}}
+Subs(e) == {e} \cup (IF e.k \in {"bin", "idx", "and", "or", "inl", "pipe", "pipekw", "count", "bindf"} THEN {x \in {e.x, e.y} : x.k \notin {"in", "c"}}
                      ELSE IF e.k \in {"un", "map"} THEN {x \in {e.x} : x.k \notin {"in", "c"}}
                      ELSE IF e.k = "where" THEN {x \in {e.c, e.x, e.y} : x.k \notin {"in", "c"}} ELSE {})
 \* does the expression use a where result inside a larger expression (a deviation found with this
